@@ -244,6 +244,40 @@ func RunC05(t *kernel.Tape, o Opts) *Result {
 	if concurrent {
 		cfg = drawSched(t, []string{"MatchingVersions", "Requirements", "Versions", "Version", "op"})
 	}
+	// Foreign concurrent tasks: resolutions in another system's universe, on
+	// their own client and resolvers, running concurrently with the main
+	// tasks. They share nothing with them except the process: package-level
+	// state touched by both shows up in the race oracle.
+	var fSpec *uni.Spec
+	var fSys resolve.System
+	var fProgs [][]*c05Op
+	if concurrent && t.Bool(1, 4) {
+		fSys = []resolve.System{resolve.NPM, resolve.Maven, resolve.PyPI}[(t.Choose(3))]
+		k := gen.Knobs{MaxPkgs: 4, MaxVers: 3, MaxReqs: 3}
+		switch fSys {
+		case resolve.NPM:
+			fSpec = gen.NPM(t, k)
+		case resolve.Maven:
+			fSpec = gen.Maven(t, k)
+		default:
+			fSpec = gen.PyPI(t, k)
+		}
+		var fr []uni.Ref
+		for pi, p := range fSpec.Pkgs {
+			if pi < 2 && !strings.Contains(p.Name, ">") {
+				for vi := range p.Vers {
+					fr = append(fr, uni.Ref{P: pi, V: vi})
+				}
+			}
+		}
+		for i, n := 0, t.Range(1, 2); i < n && len(fr) > 0; i++ {
+			var ops []*c05Op
+			for j, m := 0, t.Range(1, 2); j < m; j++ {
+				ops = append(ops, &c05Op{Root: fr[t.Choose(len(fr))]})
+			}
+			fProgs = append(fProgs, ops)
+		}
+	}
 
 	ctx := context.Background()
 	// Golden observational dump and the references, from twins never used for
@@ -314,7 +348,37 @@ func RunC05(t *kernel.Tape, o Opts) *Result {
 		fault(res, "insertion_permutation", 1)
 	}
 	ntasks := len(programs)
-	sc := &simClient{inner: live, calls: make([]int, ntasks), cancels: make([]context.CancelFunc, ntasks), maxCall: 5000}
+	nall := ntasks + len(fProgs)
+	sc := &simClient{inner: live, calls: make([]int, nall), cancels: make([]context.CancelFunc, nall), maxCall: 5000}
+	var fLive *resolve.LocalClient
+	var fClient *simClient
+	var fGolden string
+	fRefs := map[uni.Ref]string{}
+	if len(fProgs) > 0 {
+		fGolden = fSpec.Dump(fSpec.BuildClient(nil))
+		for _, ops := range fProgs {
+			for _, op := range ops {
+				if _, ok := fRefs[op.Root]; ok {
+					continue
+				}
+				bc := &boundedClient{inner: fSpec.BuildClient(nil), max: 3000}
+				g, err, pv := resolveOnce(newResolver(fSys, bc), ctx, fSpec.VK(op.Root.P, op.Root.V))
+				if bc.over {
+					res.Status = "budget"
+					res.Config = sname + "/ref-budget"
+					return res
+				}
+				if pv != nil {
+					fRefs[op.Root] = fmt.Sprintf("PANIC:%v", pv)
+				} else {
+					fRefs[op.Root] = uni.Signature(g, err)
+				}
+			}
+		}
+		fLive = fSpec.BuildClient(nil)
+		fClient = &simClient{inner: fLive, calls: sc.calls, cancels: sc.cancels, maxCall: 5000}
+		fault(res, "foreign_concurrent_tasks", len(fProgs))
+	}
 	lruSize = squeeze
 	var shared resolve.Resolver
 	perTask := make([]resolve.Resolver, ntasks)
@@ -428,6 +492,29 @@ func RunC05(t *kernel.Tape, o Opts) *Result {
 			}
 		}
 	}
+	for fi := range fProgs {
+		fi := fi
+		idx := ntasks + fi
+		tctx, cancel := context.WithCancel(context.Background())
+		sc.cancels[idx] = cancel
+		fres := newResolver(fSys, fClient)
+		fns = append(fns, func(*kernel.Task) {
+			for _, op := range fProgs[fi] {
+				sc.calls[idx] = 0
+				s.Yield(kernel.KindOp, "op-start", false)
+				g, err, pv := resolveOnce(fres, tctx, fSpec.VK(op.Root.P, op.Root.V))
+				op.panicV = pv
+				if pv == nil {
+					op.sig = uni.Signature(g, err)
+					op.desc = uni.Describe(g, err)
+				}
+				s.Yield(kernel.KindOp, "op-end", false)
+			}
+		})
+	}
+	if fClient != nil {
+		fClient.s = s
+	}
 	okRun := s.Run(fns)
 	for _, c := range sc.cancels {
 		if c != nil {
@@ -457,7 +544,7 @@ func RunC05(t *kernel.Tape, o Opts) *Result {
 	if !concurrent {
 		fault(res, "history_ops", len(programs[0]))
 	}
-	for i := 0; i < ntasks; i++ {
+	for i := 0; i < nall; i++ {
 		if pv := s.TaskPanic(i); pv != nil {
 			violate(res, "panic", "panic:harness-task", 0, "task %d panicked outside an operation: %v", i, pv)
 		}
@@ -469,6 +556,22 @@ func RunC05(t *kernel.Tape, o Opts) *Result {
 			}
 		}
 		checkClient(s.Yields, "at quiescence after the concurrent phase")
+		fname := sysNames[fSys]
+		for i, ops := range fProgs {
+			for j, op := range ops {
+				vk := fSpec.VK(op.Root.P, op.Root.V)
+				if op.panicV != nil {
+					violate(res, "panic", "panic:"+fname, j, "foreign task %d Resolve(%s %s) panicked: %v", i, vk.Name, vk.Version, op.panicV)
+				} else if op.sig != fRefs[op.Root] {
+					violate(res, "result-mismatch", "result-mismatch:"+fname, j, "foreign task %d (own %s universe, client and resolver) Resolve(%s %s) differs from the serial result on a fresh client:\n%s", i, fname, vk.Name, vk.Version, op.desc)
+				}
+			}
+		}
+		if fLive != nil {
+			if d := fSpec.Dump(fLive); d != fGolden {
+				violate(res, "client-mutated", "client-mutated:"+fname+":foreign", s.Yields, "the foreign tasks' client reports differently than before: %s", uni.FirstDiff(fGolden, d))
+			}
+		}
 	}
 	// Reference again, after everything: must agree with the first.
 	refs2, _, ok2 := computeRefs()
@@ -535,6 +638,9 @@ func RunC05(t *kernel.Tape, o Opts) *Result {
 		}
 		if prelude {
 			scn.Prelude = sysNames[preludeSys] + ":\n" + preludeSpec.SchemaText()
+		}
+		if len(fProgs) > 0 {
+			scn.Prelude += fmt.Sprintf("\n[%d foreign concurrent task(s) in this %s universe]\n%s", len(fProgs), sysNames[fSys], fSpec.SchemaText())
 		}
 		if concurrent {
 			scn.Sched = fmt.Sprintf("mode=%s latency=%s target=%q", modeName(cfg.Mode), latName(cfg.Latency), cfg.Target)
